@@ -44,6 +44,19 @@ impl From<AttributeError> for VertexInsertionError {
 
 // -- routines
 
+/// Transactional counterpart of `CMap2::is_free`: the freeness of the spare darts must be read
+/// through the caller's transaction, otherwise links made earlier in the same transaction (or
+/// committed concurrently) are not seen.
+fn is_free_transac<T: CoordsFloat>(
+    cmap: &CMap2<T>,
+    trans: &mut Transaction,
+    dart_id: DartIdType,
+) -> StmClosureResult<bool> {
+    Ok(cmap.beta_transac::<0>(trans, dart_id)? == NULL_DART_ID
+        && cmap.beta_transac::<1>(trans, dart_id)? == NULL_DART_ID
+        && cmap.beta_transac::<2>(trans, dart_id)? == NULL_DART_ID)
+}
+
 /// Insert a vertex in an edge, cutting it into two segments.
 ///
 /// <div class="warning">
@@ -79,19 +92,6 @@ impl From<AttributeError> for VertexInsertionError {
 /// The returned error can be used in conjunction with transaction control to avoid any
 /// modifications in case of failure at attribute level. The user can then choose to retry or
 /// abort as he wishes using `Transaction::with_control_and_err`.
-/// Transactional counterpart of `CMap2::is_free`: the freeness of the spare darts must be read
-/// through the caller's transaction, otherwise links made earlier in the same transaction (or
-/// committed concurrently) are not seen.
-fn is_free_transac<T: CoordsFloat>(
-    cmap: &CMap2<T>,
-    trans: &mut Transaction,
-    dart_id: DartIdType,
-) -> StmClosureResult<bool> {
-    Ok(cmap.beta_transac::<0>(trans, dart_id)? == NULL_DART_ID
-        && cmap.beta_transac::<1>(trans, dart_id)? == NULL_DART_ID
-        && cmap.beta_transac::<2>(trans, dart_id)? == NULL_DART_ID)
-}
-
 #[allow(clippy::too_many_lines)]
 pub fn insert_vertex_on_edge<T: CoordsFloat>(
     cmap: &CMap2<T>,
